@@ -352,7 +352,7 @@ func (im *Impl) Exec(line string) (out string) {
 	case "rbend":
 		return im.rbEnd()
 	case "clone":
-		return im.clone(w[1])
+		return im.clone(w[1], len(w) > 2 && w[2] == "late")
 	case "maxchain":
 		types.MaxChainLength = atoi(w[1])
 		return "ok"
